@@ -48,15 +48,64 @@ def static_head(expr):
     return ""
 
 
+def representative_message(expr):
+    """A concrete message for a message expression: its constant parts, every formatted value replaced by a placeholder."""
+    if isinstance(expr, ast.Constant) and isinstance(expr.value, str):
+        return expr.value
+    if isinstance(expr, ast.JoinedStr):
+        return "".join(v.value if isinstance(v, ast.Constant) and isinstance(v.value, str) else "<value>" for v in expr.values)
+    if isinstance(expr, ast.BinOp) and isinstance(expr.op, ast.Add):
+        return representative_message(expr.left) + representative_message(expr.right)
+    return "<value>"
+
+
+_DELIVERY = {}
+
+
 def suppressed_by_filter(prog, log_call):
-    """Entry of config.FILTER_WARNINGS under which a warning call falls (messages with these beginnings are dropped by io.DuplicateFilter
-    after a fixed number of repetitions), or None.  A report the properties rely on must not be one of them."""
+    """Is a warning the properties rely on kept from the user by the duplicate-message filter attached to the loggers?  io.DuplicateFilter.filter
+    is evaluated on a model record carrying a representative text of the message, 25 times in a row on one filter object (repeated reports in
+    one run, and the same report in later runs of one process): every one must pass.  Returns a description of the suppression or None.
+    Fallback when the filter cannot be evaluated: the message must not begin like an entry of config.FILTER_WARNINGS."""
     if not log_call.args:
         return None
+    text = representative_message(log_call.args[0])
+    key = (id(prog), text)
+    if key not in _DELIVERY:
+        _DELIVERY[key] = _filter_verdict(prog, text)
+    if _DELIVERY[key] is not NotImplemented:
+        return _DELIVERY[key]
     head = static_head(log_call.args[0])
     for w in prog.module_constants("config.py").get("FILTER_WARNINGS", []) or []:
         if isinstance(w, str) and head and (head.startswith(w) or w.startswith(head)):
             return w
+    return None
+
+
+def _filter_verdict(prog, text):
+    from ..guards import Flow, Obj
+    from ..objinterp import ObjRunner
+    if not prog.classes_by_name.get("DuplicateFilter"):
+        return None
+
+    def extra(runner, interp, call, args, kw):
+        if isinstance(call.func, ast.Attribute) and call.func.attr == "getMessage" and not args:
+            recv = interp.ev(call.func.value)
+            if isinstance(recv, dict) and recv.get("__class__") == "<record>":
+                return recv["msg"]
+        return NotImplemented
+
+    try:
+        run = ObjRunner(prog, "io.py", extra_hook=extra)
+        filt = run.new("DuplicateFilter")
+        for k in range(25):
+            rec = Obj({"__class__": "<record>", "levelname": "WARNING", "levelno": 30, "msg": text, "name": "pdb2pqr.biomolecule", "args": ()})
+            if not run.call(filt, "filter", rec):
+                return f"io.DuplicateFilter lets the message {text[:50]!r} through {k} time(s) and drops it from then on"
+    except Flow as fl:
+        return f"io.DuplicateFilter stops with {fl.value} on the message {text[:50]!r}"
+    except AnalysisError:
+        return NotImplemented
     return None
 
 
